@@ -19,20 +19,18 @@ import vlib, valgen
 SCHEMA = os.path.join(vlib.ROOT, "schemas", "valid.json")
 
 def run_g1(c, confs):
-    def one(item):
-        label, conf = item
-        cfg = c.path("Gen_%s.cfg" % label)
-        valgen.write_cfg(cfg, conf, ["TypeOK", "DepthOK", "NoEmptySet", "Emit"])
-        return label, vlib.run_tlc("gql/Gen_ValDoc.tla", cfg, workers=3, timeout=3000, keep_lines=20, xmx="4g")
-    with ThreadPoolExecutor(4) as ex:
-        results = list(ex.map(one, sorted(confs.items())))
-    out = {}
-    for label, g in results:
-        if g.invariant_violated:
-            raise vlib.ToolError("generator invariant %s violated (%s)" % (g.invariant_violated, label))
-        c.add_tlc("G1 %s" % label, g)
-        out[label] = sorted(set(t[1] for t in g.tagged("REPLAY")))
-    return out
+    mod = valgen.write_gen_module(c.work, "GenRun", confs, ["TypeOK", "DepthOK", "NoEmptySet", "Emit"])
+    g = vlib.run_tlc(mod, c.path("GenRun.cfg"), workers=8, timeout=3000, keep_lines=20, xmx="6g")
+    if g.invariant_violated:
+        raise vlib.ToolError("generator invariant %s violated" % g.invariant_violated)
+    c.add_tlc("G1 Gen_ValDoc (%d configurations)" % len(confs), g)
+    out = {label: set() for label in confs}
+    for t in g.tagged("REPLAY"):
+        out[t[1]].add(t[2])
+    empty = [k for k, v in out.items() if not v]
+    if empty:
+        raise vlib.ToolError("generator configuration without documents: %s" % empty)
+    return {k: sorted(v) for k, v in out.items()}
 
 
 def parse_v(v, legend):
@@ -48,11 +46,10 @@ def body(c):
     ts = json.load(open(SCHEMA))
     rng = random.Random(c.seed)
     # ---- M: the generator state machine with its invariants (small pools, complete) ----
-    mcfg = c.path("MC_ValDoc.cfg")
-    valgen.write_cfg(mcfg, dict(valgen.BASE, MaxNodes=3, MaxSecs=2, MaxAlias=1, MaxArgs=1, MaxDirs=1, MaxVars=1, OpHeads=["query:", "query:Q"], FragNames=["F1"],
-                         Fields=["a", "id"], Conds=["A"], Spreads=["F1"], ArgPool=["x=int1"], DirPool=["skip(if=true)"], VarPool=["v|Int||"]),
-              ["TypeOK", "DepthOK", "NoEmptySet"])
-    m = vlib.run_tlc("gql/Gen_ValDoc.tla", mcfg, workers=4, timeout=600, coverage=True, keep_lines=2000)
+    mconf = {"mc": dict(valgen.BASE, MaxNodes=3, MaxSecs=2, MaxAlias=1, MaxArgs=1, MaxDirs=1, MaxVars=1, OpHeads=["query:", "query:Q"], FragNames=["F1"],
+                        Fields=["a", "id"], Conds=["A"], Spreads=["F1"], ArgPool=["x=int1"], DirPool=["skip(if=true)"], VarPool=["v|Int||"])}
+    mmod = valgen.write_gen_module(c.work, "MC_GenValDoc", mconf, ["TypeOK", "DepthOK", "NoEmptySet"])
+    m = vlib.run_tlc(mmod, c.path("MC_GenValDoc.cfg"), workers=4, timeout=600, coverage=True, keep_lines=2000)
     if m.invariant_violated:
         raise vlib.ToolError("design-level failure in Gen_ValDoc.tla: " + str(m.invariant_violated))
     for act in ("AddField", "AddInline", "AddSpread", "Close", "NewSection"):
